@@ -55,7 +55,10 @@ Definition ns_remove (s : nsstate) (id : str) (from_flag : N) : nsstate :=
        | Some v =>
            let nf := N.ldiff (ns_flag v) from_flag in
            if nf =? ns_flag v then s
-           else if 0 <? nf then mkNsS (sm_put str_cmp (ns_data s) id (mkNs (ns_name v) nf)) (ns_order s) (ns_already s)
+           else if 0 <? nf then
+             (* what remains of a deleted USER namespace is a weak namespace, named by its id as
+                set_weak_namespace creates it (repair: snapshots do not keep weak namespaces) *)
+             mkNsS (sm_put str_cmp (ns_data s) id (mkNs (if from_flag =? F_USER then id else ns_name v) nf)) (ns_order s) (ns_already s)
            else mkNsS (sm_del str_cmp (ns_data s) id) (remove_first id (ns_order s)) (ns_already s)
        | None => s
        end.
